@@ -21,7 +21,9 @@ from ebpfcat.ebpfcat import (
 
 PROP = "C24"
 LEVEL = "model_checking"
-RULE = ("group kind (slow / fast / process) x terminal set x late-frame "
+RULE = ("group kind (slow / fast / process) x terminal set (alone, or "
+        "with a second group of the same master started before / after it "
+        "that keeps running) x late-frame "
         "position x every cancellation point (driver step) from start() "
         "through three cycles; non-trivial = the cancellation hit a running "
         "task; distinct = distinct (configuration, cancellation step)")
@@ -81,12 +83,15 @@ class FakeCtx:
 
 
 def execute(kind, cname, late_at, cancel_at, child_delay=0, latency=0,
-            via_run=False):
+            via_run=False, companion=None):
     """-> observation dict.  cancel_at None = just measure the default run.
     latency: AL state transitions take that many status polls.
     via_run (fast groups): the group is started inside `async with
     ec.run():` and 'cancelling' means leaving that block, which cancels the
-    registered groups through FastSyncGroup.cancel()."""
+    registered groups through FastSyncGroup.cancel().
+    companion ("before" / "after"): a second group of the same kind on the
+    same master, with a terminal of its own, started before / after the
+    group under test and never cancelled: it must not notice anything."""
     conf = CONFIGS[cname]
     sk = None
     obs = dict(kind=kind, steps=0, cycles=0, cancelled_running=False)
@@ -102,7 +107,10 @@ def execute(kind, cname, late_at, cancel_at, child_delay=0, latency=0,
         w = ecworld.World(ec_cls=eccls)
         if kind == "fast":
             saved["randrange"] = ecat.randrange
-            ecat.randrange = lambda n: 5
+            # the second registration of an execution draws the number of
+            # the first one before it gets a free one
+            draws = iter([5, 5, 9])
+            ecat.randrange = lambda n: next(draws, 11)
             w.ec.programs = ecat.create_map(ecat.MapType.PROG_ARRAY, 4, 4,
                                             w.ec.MAX_PROGS)
         terms = []
@@ -134,6 +142,12 @@ def execute(kind, cname, late_at, cancel_at, child_delay=0, latency=0,
             sg.ctx = FakeCtx(sg.ctx)
             saved["pidfd_open"] = os.pidfd_open
             os.pidfd_open = lambda pid: 777
+        sg2 = task2 = t2 = None
+        if companion:
+            t2 = w.add_terminal(4, 6, use_fmmu=True)
+            sg2 = type(sg)(w.ec, [Dev({t2: True})])
+            if companion == "before":
+                task2 = sg2.start()
         cycles = [0]
         if kind != "process":
             orig = sg.update_devices
@@ -176,6 +190,8 @@ def execute(kind, cname, late_at, cancel_at, child_delay=0, latency=0,
             task = started[0]
         else:
             task = sg.start()
+        if companion == "after":
+            task2 = sg2.start()
         index = [None]
         cyclic_seen = [0]
         child_exit_in = [None]
@@ -249,6 +265,34 @@ def execute(kind, cname, late_at, cancel_at, child_delay=0, latency=0,
             m = sk.map_of(w.ec.programs)
             obs["registered"] = sorted(m.progs)
             obs["sync_groups"] = sorted(w.ec.sync_groups)
+        if companion:
+            # let the companion finish whatever it was doing
+            for _ in range(200):
+                if task2.done():
+                    break
+                if w.loop.has_ready():
+                    w.loop.run_once()
+                elif w.master.transport.inflight:
+                    w.master.deliver(0)
+                else:
+                    break
+            ctl2 = [v for k, v in t2.model.al_log if k == "ctl"]
+            mine = getattr(sg2, "packet_index", None)
+            obs["companion"] = dict(
+                done=task2.done(),
+                error=(repr(task2.exception())[:80] if task2.done() and
+                       not task2.cancelled() and task2.exception() else None),
+                al_requests=ctl2, index=mine,
+                fmmu_used=list(t2.fmmu_used))
+            if kind == "fast":
+                obs["companion"]["slot_ok"] = (
+                    mine in m.progs and w.ec.sync_groups.get(mine) is sg2)
+                # the table without the companion's own entry
+                obs["registered"] = [i for i in obs["registered"]
+                                     if i != mine]
+                obs["sync_groups"] = [i for i in obs["sync_groups"]
+                                      if i != mine]
+            obs["fmmu_used"] = obs["fmmu_used"][:len(terms)]
         if kind == "process":
             obs["running_flag"] = bool(sg.runningValue.value)
             obs["child_exited"] = child_exit_in[0] == -1
@@ -327,6 +371,22 @@ def judge(case, obs, res):
         if out == ("cancelled",) and not obs["child_exited"]:
             bad("task waits for the subprocess to exit", "ended before",
                 "task ended before the subprocess stopped", pre)
+    comp = obs.get("companion")
+    if comp:
+        if comp["done"]:
+            bad("the other group keeps running", comp["error"] or "ended",
+                "cancelling one group ended another one")
+        ctl = comp["al_requests"]
+        if 8 in ctl and 4 in ctl[len(ctl) - ctl[::-1].index(8):]:
+            bad("the other group's terminal stays OPERATIONAL", ctl,
+                "cancelling one group took another group's terminal out of "
+                "OPERATIONAL")
+        if kind == "fast" and comp["index"] is not None and \
+                not comp["done"] and not comp["slot_ok"]:
+            bad("the other group's program stays registered under its own "
+                "number", comp["index"],
+                "cancelling one group unregistered / replaced another "
+                "group's program")
     for msg, exc in obs["loop_errors"]:
         if exc in ("CancelledError",):
             continue
@@ -336,10 +396,13 @@ def judge(case, obs, res):
 
 
 def work(item, res):
-    kind, cname, late_at, latency, via_run = item
+    kind, cname, late_at, latency, via_run, *more = item
+    companion = more[0] if more else None
     base = dict(kind=kind, config=cname, late_at=late_at, latency=latency,
                 via_run=via_run)
-    ref = execute(kind, cname, late_at, None, 0, latency, via_run)
+    if companion:
+        base["companion"] = companion
+    ref = execute(kind, cname, late_at, None, 0, latency, via_run, companion)
     judge(dict(base, cancel_at=None), ref, res)
     n = ref["steps"]
     res.count("evaluations")
@@ -347,7 +410,8 @@ def work(item, res):
     delays = (0, 2) if kind == "process" else (0,)
     for k in range(0, n + 1):
         for delay in delays:
-            obs = execute(kind, cname, late_at, k, delay, latency, via_run)
+            obs = execute(kind, cname, late_at, k, delay, latency, via_run,
+                          companion)
             res.count("evaluations")
             res.count("transitions", obs["steps"])
             case = dict(base, cancel_at=k, child_delay=delay)
@@ -357,8 +421,10 @@ def work(item, res):
             res.outcomes.add((kind, obs["outcome"][:2]))
             judge(case, obs, res)
     res.count(f"cancellation_points_{kind}", reached)
-    a = execute(kind, cname, late_at, n // 2, 0, latency, via_run)
-    b = execute(kind, cname, late_at, n // 2, 0, latency, via_run)
+    a = execute(kind, cname, late_at, n // 2, 0, latency, via_run,
+                companion)
+    b = execute(kind, cname, late_at, n // 2, 0, latency, via_run,
+                companion)
     if a != b:
         raise core.Internal("non-deterministic execution")
 
@@ -380,6 +446,11 @@ def run(ctx):
             if kind == "fast" and cname in ("one-fmmu-rw", "two-fmmu-rw"):
                 # cancelled by leaving `async with ec.run():`
                 items.append((kind, cname, None, 0, True))
+            if kind != "process" and cname in ("one-fmmu-rw",
+                                               "fmmu-rw+direct-ro"):
+                # another group of the same master keeps running
+                for comp in ("before", "after"):
+                    items.append((kind, cname, None, 0, False, comp))
     res = core.pmap(ctx, work, items, chunk=1)
     # merge the per-item dicts that pmap overwrote
     res.cov["states"] = len(res.nontrivial)
@@ -408,7 +479,7 @@ def replay(ctx, rep):
     c = rep["case"]
     obs = execute(c["kind"], c["config"], c["late_at"], c["cancel_at"],
                   c.get("child_delay", 0), c.get("latency", 0),
-                  c.get("via_run", False))
+                  c.get("via_run", False), c.get("companion"))
     print(obs)
     judge(c, obs, res)
     return res.violations
